@@ -1108,3 +1108,14 @@ def expect_leaf_of_nested_chain():
     main = [['sleep', '1/100'], ['root', 'A', 'P', 'P1'], ['await', 'P1'], ['idle', 'A'], ['sleep', '1/2'], ['obs_all', 'end']]
     return dict(buses=['A'], reals={'d1': ['0', '1/5'], 'd2': ['0', '1/5']}, handlers=handlers, main=main,
                 actors={'e': [['expect', 'A', '*', '2', 'G1']]}, horizon=6)
+
+
+
+def handler_sends_own_event_to_wal_bus():
+    """a handler of A hands the very event it is handling to a second (warm) bus B that keeps a WAL, then awaits a child: B's
+    queue is drained inline, so B processes the event while that handler of A is still running (the event is in flight on two
+    buses at once).  B ran its handlers for it, so B's log has its line."""
+    handlers = [['A', 'P', 'hA', [['redispatch', 'B', 'P1'], ['dispawait', 'A', 'C', 'C1'], ['sleep', 'd1'], ['ret', 'a']]], ['A', 'C', 'hC', [['ret', 'c']]],
+                ['B', 'P', 'hB', [['ret', 'b']]], ['B', 'X', 'hXB', [['ret', 'x']]]]
+    main = [['root', 'B', 'X', 'X0'], ['idle', 'B'], ['root', 'A', 'P', 'P1'], ['await', 'P1'], ['idle', 'A'], ['idle', 'B'], ['obs_all', 'end']]
+    return dict(buses=['A', 'B'], order=['B', 'A'], wal=['B'], reals={'d1': ['0', '1/5']}, handlers=handlers, main=main, horizon=6)   # (registry order B, A: the drain looks at B's queue first)
